@@ -19,7 +19,9 @@ SPEC = dict(id="C13", kind="pure", binary="c13", gen="c13", corr="C13", n_quick=
         "C13_total / C13_crash_sites are statements about the model, whose panics are the two sites it knows (metrics[0], nil *Regexp); panics inside Go libraries are only observed",
         "the default filter is a literal copy of common.DefaultFilter in the harness; a change of the constant in /repo is reported as a disagreement",
         "the monitor's reading of 'in log order' inside one line: filter by filter, then match by match (TEXT); tracked-name list order (JSON)",
-        "known-finding domains (monitor only, no model comparison): JSON with some fractional numeric timestamp (F6, json-epoch-fraction); JSON with a tracked name listed twice (json-duplicate-metric)",
+        "known-finding domains (monitor only, no model comparison): JSON with some fractional numeric timestamp (F6, json-epoch-fraction, not to be fixed: the model is faithful to it and "
+        "C13_epoch_refuted / C13_epoch_fraction_wrong state it); JSON with a tracked name listed twice (json-duplicate-metric: the model's loop over the tracked names is the REPAIRED one of "
+        "docs/proposed_fixes/new-json-duplicate-metric.diff, equal to the pinned loop whenever no name is repeated (C13_json_pinned_agrees); the pinned loop is transcribed separately for C13_json_dup_refuted)",
         "not covered: os.Open/io.ReadAll failures, klog output, and cmd/.../main.go (package main: reportMetrics splits -m and -f at ';' and passes nil lists when the flags are empty; watchMetricsFile/early stopping is another property)",
     ],
     trusted_base=["harness/cmd/c13 calls the exported CollectObservationLog on a temporary file; no verif hook in /repo is needed",
